@@ -582,6 +582,36 @@ func spaceTreeOrders(nMin, nMax int) func(emit func(Input)) {
 	}
 }
 
+// spaceDoubled presents every input of sp with ONE of its edges doubled: once as a parallel copy (appended right after
+// the edge, and once more at the end of the list) and once as an antiparallel copy at the end. Gadget shapes are simple
+// graphs; multi-edges between nodes of two wide adjacent layers only arise this way at that size.
+func spaceDoubled(sp func(emit func(Input))) func(emit func(Input)) {
+	return func(emit func(Input)) {
+		seen := map[string]bool{}
+		out := func(flat []int) {
+			in := relabel(flat)
+			k := fmt.Sprint(in.E)
+			if !seen[k] {
+				seen[k] = true
+				emit(in)
+			}
+		}
+		sp(func(in Input) {
+			m := in.M()
+			for i := 0; i < m; i++ {
+				u, v := in.E[2*i], in.E[2*i+1]
+				if u == v {
+					continue
+				}
+				a := append(append(append([]int(nil), in.E[:2*i+2]...), u, v), in.E[2*i+2:]...)
+				out(a)
+				out(append(append([]int(nil), in.E...), u, v))
+				out(append(append([]int(nil), in.E...), v, u))
+			}
+		})
+	}
+}
+
 // spaceAllRotations presents every input of sp with its edge list rotated by 1..m-1 positions (the input itself is
 // left to sp).
 func spaceAllRotations(sp func(emit func(Input))) func(emit func(Input)) {
